@@ -90,3 +90,24 @@ Example bx_bad_ops_now_refused :
   nwc_b 2 (bx_node (ops_state 2 bx_cache bx_bad_ops)) = true /\
   csum (used_amt DCpu) (n_tasks (bx_node (ops_state 2 bx_cache bx_bad_ops))) = 32000.
 Proof. vm_compute. repeat split; reflexivity. Qed.
+
+(* Second audit N2: the agent scheduler cache forgets what a node held across RemoveNode + re-add.
+   agent_events_safe holds of this history -- it speaks about the copies the CACHE holds -- but what is
+   placed on the node is more: t1 (running, never deleted) and t2.  Reproduced on the real agent cache
+   (harness family bind/agent/readd, known finding C02-agent-remove-node-forgets-held-tasks). *)
+Definition ag_tasks (i : positive) : option task := c_heap bx_cache !! i.
+Definition ag_t2 : task := default (mkTask 2 1 1 1 0 empty_res empty_res false false Pending None) (ag_tasks 2).
+Definition ag_ops : list agent_op := [AOpEv (EvRemoveNode 1); AOpEv (EvNode 1 bx_alloc); AOpBind ag_t2 1]%positive.
+Definition ag_final : gmap positive node := fold_left (agent_step 2 ag_tasks) ag_ops (c_nodes bx_cache).
+
+Theorem agent_remove_readd_forgets_refuted :
+  (* the node held the running t1 (2000m of 3000m) *)
+  map fst (map_to_list (n_tasks (bx_node bx_cache))) = [1%positive] /\
+  (* after remove + re-add + bind of t2 (2000m): accepted, the cache's node holds t2 only ... *)
+  match ag_final !! 1%positive with
+  | Some n => (map fst (map_to_list (n_tasks n)), csum (used_amt DCpu) (n_tasks n), nwc_b 2 n)
+  | None => ([], 0, false)
+  end = ([2%positive], 32000, true) /\
+  (* ... although t1 was never deleted: 2000m + 2000m are placed on 3000m *)
+  amt (t_req ag_t2) DCpu + csum (used_amt DCpu) (n_tasks (bx_node bx_cache)) = 64000 /\ amt bx_alloc DCpu = 48000.
+Proof. vm_compute. repeat split; reflexivity. Qed.
